@@ -97,7 +97,7 @@ Proof.
   assert (forall x, exists t0, List.rev (x :: acc) = List.rev acc ++ t0) as Cons by (intros x; cbn; eauto).
   assert (exists t0, List.rev (push_rec acc) = List.rev acc ++ t0) as Push.
   { unfold push_rec. destruct acc as [|[] [|? ?]]; cbn; eauto; exists []; rewrite app_nil_r; auto. }
-  destruct s as [|c r]. { intros [= <-]. exists []. rewrite app_nil_r. auto. }
+  destruct s as [|c r]. { rewrite frev_eq. intros [= <-]. exists []. rewrite app_nil_r. auto. }
   destruct (c =? 63). { apply Step, Cons. }
   destruct (c =? 42).
   { destruct (Nat.ltb 2 _); [discriminate|]. destruct (Nat.eqb _ 2).
